@@ -270,14 +270,15 @@ func c19Name(max int, symbolicLen bool) {
 	de := &directoryEntry{filesystem: f, extensions: exts, isSubdirectory: true, filename: "X"}
 	got := de.Name()
 	long := n > 249
+	if long {
+		vp.Cover("name continued in a second NM record")
+	}
+	vp.Cover("NM encoded and parsed")
 	vp.AssertUnless("KF-C19-2", long, len(got) == n, "name length survives")
 	for k := 0; k < max; k++ {
 		if k < n && k < len(got) {
 			vp.Assert(got[k] == tb[k], "name bytes survive")
 		}
-	}
-	if long {
-		vp.Cover("name continued in a second NM record")
 	}
 	vp.Cover("NM round trip")
 }
